@@ -144,8 +144,11 @@ func c17err(err error) string {
 		return "ok"
 	case errors.Is(err, ErrProposalExceedsMaxFee):
 		return "exceedsmax"
-	case strings.Contains(err.Error(), "cannot afford"):
-		return "afford"
+	case strings.Contains(err.Error(), "cannot afford"),
+		strings.Contains(err.Error(), "transaction has no outputs"):
+
+		// CreateCloseProposal refused to build / sign this fee
+		return "cannotsign"
 	case strings.Contains(err.Error(), "was not accepted"):
 		return "taprootmismatch"
 	case errors.Is(err, ErrInvalidState):
@@ -312,6 +315,7 @@ type c17neg struct {
 	shutdownByI      bool
 	early            bool
 	openerSat        int64 // opener's balance incl. commit fee and anchors
+	otherSat         int64 // the non-opener's balance
 	maxMsgs          int
 }
 
@@ -323,11 +327,12 @@ func (c *c17) negotiate(chI, chR *lnwallet.LightningChannel, p c17neg) {
 	c.n++
 	stI := chI.State()
 	c.pf("CASE %d kind=neg type=%s taproot=%d idealI=%d idealR=%d maxCfgI=%d "+
-		"maxCfgR=%d shutdownBy=%s early=%d openerSat=%d dustI=%d dustR=%d "+
+		"maxCfgR=%d shutdownBy=%s early=%d openerSat=%d otherSat=%d dustI=%d dustR=%d "+
 		"capacity=%d cap=%d", c.n, p.tname,
 		c17b(stI.ChanType.IsTaproot()), p.idealI, p.idealR, p.maxCfgI,
 		p.maxCfgR, map[bool]string{true: "I", false: "R"}[p.shutdownByI],
-		c17b(p.early), p.openerSat, int64(stI.LocalChanCfg.DustLimit),
+		c17b(p.early), p.openerSat, p.otherSat,
+		int64(stI.LocalChanCfg.DustLimit),
 		int64(stI.RemoteChanCfg.DustLimit), int64(stI.Capacity), p.maxMsgs)
 
 	mk := func(name string, ch *lnwallet.LightningChannel, ideal,
@@ -471,7 +476,9 @@ func (c *c17) negotiate(chI, chR *lnwallet.LightningChannel, p c17neg) {
 		for _, o := range tx.TxOut {
 			sum += o.Value
 		}
-		return int64(nd.ch.State().Capacity) - sum
+		// fee actually paid = funds of the channel (credited balances)
+		// minus what the outputs carry
+		return p.openerSat + p.otherSat - sum
 	}
 	txeq := -1
 	tI, eI := nI.closer.ClosingTx()
@@ -642,7 +649,32 @@ func TestVerifC17(t *testing.T) {
 				chR.State().LocalCommitment.LocalBalance = rest
 				openerSat = want
 			}
+			if c.rng.Intn(10) == 0 {
+				// the non-opener is below its dust limit: the close tx
+				// has only the opener's output, which must stay above
+				// the opener's own dust limit
+				dustR := int64(chI.State().RemoteChanCfg.DustLimit)
+				other := c.rng.Int63n(dustR)
+				lb := chI.State().LocalCommitment.LocalBalance
+				if c.rng.Intn(2) == 0 {
+					// ... and the opener can pay only about the fees
+					want := hi + int64(c.rng.Intn(600)) - 100
+					if want < cf+anchors {
+						want = cf + anchors
+					}
+					lb = lnwire.NewMSatFromSatoshis(
+						btcutil.Amount(want - cf - anchors),
+					)
+					openerSat = want
+				}
+				ob := lnwire.NewMSatFromSatoshis(btcutil.Amount(other))
+				chI.State().LocalCommitment.LocalBalance = lb
+				chI.State().LocalCommitment.RemoteBalance = ob
+				chR.State().LocalCommitment.RemoteBalance = lb
+				chR.State().LocalCommitment.LocalBalance = ob
+			}
 			p.openerSat = openerSat
+			p.otherSat = int64(chI.State().LocalCommitment.RemoteBalance.ToSatoshis())
 			c.negotiate(chI, chR, p)
 		}
 	}
